@@ -21,6 +21,57 @@ impl Document for HandDoc<'_> {
     }
 }
 
+/// a hand-written document that hands out *owned* strings (Cow::Owned) everywhere, also from
+/// its own Array implementation
+enum OVal {
+    Plain(MVal),
+    Str(String),
+    Arr(OArr),
+    Obj(OObj),
+}
+struct OArr(Vec<OVal>);
+struct OObj(Vec<(String, OVal)>);
+fn oval(v: &MVal) -> OVal {
+    match v {
+        MVal::Str(s) => OVal::Str(s.clone()),
+        MVal::Arr(a) => OVal::Arr(OArr(a.iter().map(oval).collect())),
+        MVal::Obj(o) => OVal::Obj(oobj(o)),
+        other => OVal::Plain(other.clone()),
+    }
+}
+fn oobj(o: &MObj) -> OObj {
+    OObj(o.0.iter().map(|(k, v)| (k.clone(), oval(v))).collect())
+}
+impl OVal {
+    fn value(&self) -> Value<'_> {
+        match self {
+            OVal::Plain(p) => p.as_value(),
+            OVal::Str(s) => Value::String(std::borrow::Cow::Owned(s.clone())),
+            OVal::Arr(a) => Value::Array(a),
+            OVal::Obj(o) => Value::Object(o),
+        }
+    }
+}
+impl tau_engine::Array for OArr {
+    fn iter(&self) -> Box<dyn Iterator<Item = Value<'_>> + '_> {
+        Box::new(self.0.iter().map(|v| v.value()))
+    }
+    fn len(&self) -> usize {
+        self.0.len()
+    }
+}
+impl Object for OObj {
+    fn get(&self, key: &str) -> Option<Value<'_>> {
+        self.0.iter().find(|(k, _)| k == key).map(|(_, v)| v.value())
+    }
+    fn keys(&self) -> Vec<std::borrow::Cow<'_, str>> {
+        self.0.iter().map(|(k, _)| std::borrow::Cow::Owned(k.clone())).collect()
+    }
+    fn len(&self) -> usize {
+        self.0.len()
+    }
+}
+
 fn extreme_docs() -> Vec<MObj> {
     let mut out = vec![];
     let vals: Vec<MVal> = vec![
@@ -128,6 +179,7 @@ fn check_spec(spec: &RuleSpec, extra: &[MObj], level: u8) -> Stats {
                 let o: &dyn Object = d;
                 eng::matches(&rule, &o)
             }),
+            ("hand-written Object with owned strings", eng::matches(&rule, &oobj(d))),
         ];
         for variant in 0..3 {
             let m = mdoc::to_std_map(d, variant + di);
